@@ -621,7 +621,7 @@ func worldC19(w *World) {
 	if faulty {
 		nf := t.Range(1, 3, "nfaults")
 		for i := 0; i < nf; i++ {
-			k := t.Choice(8, "faultkind")
+			k := t.Choice(9, "faultkind")
 			r := &frule{nth: t.Range(0, 3, "nth")}
 			switch k {
 			case 0:
@@ -640,6 +640,9 @@ func worldC19(w *World) {
 				r.svc, r.method = "memcache", "Set"
 			case 7:
 				r.svc, r.method, r.keyPrefix = "datastore_v3", "Put", "/activityTracker:"
+			case 8:
+				// every blob-part write fails (several concurrent part writes of one payload)
+				r.svc, r.method, r.keyPrefix, r.nth = "datastore_v3", "Put", "/blobParts:", -1
 			}
 			rules = append(rules, r)
 		}
@@ -684,6 +687,10 @@ func worldC19(w *World) {
 				}
 			}
 			f.seen++
+			if f.nth == -1 {
+				w.K.Count("fault.rpc_all_blob_parts")
+				return errors.New("injected RPC failure")
+			}
 			if f.seen-1 == f.nth {
 				w.K.Count("fault.rpc_" + r.Service + "_" + r.Method)
 				return errors.New("injected RPC failure")
